@@ -171,7 +171,7 @@ func genQuerySpec(r *kernel.Rand) QuerySpec {
 	return q
 }
 
-var alwaysInvalid = []string{"&", "^", "`", "~", "あ", "😀", "&", "^"}
+var alwaysInvalid = []string{"&", "^", "`", "~", "あ", "😀", "&", "^", "@", "★", "\x01", "'"}
 
 // corruptionAt builds a corruption at token boundary p (byte offset).
 func (q *QuerySpec) corruptionAt(r *kernel.Rand, p int) Corruption {
@@ -190,7 +190,7 @@ func (q *QuerySpec) corruptionAt(r *kernel.Rand, p int) Corruption {
 	}
 	// after a complete term a misplaced literal is at fault itself
 	if idx > 0 && q.AfterTerm[idx-1] && r.Bool(0.4) {
-		lit := kernel.Pick(r, []string{`1`, `"s"`, `"s\(1)"`, `"\(.)"`, `$v`, `"日本\(1)x"`, `@base64`, `@json "x"`, `1.5e3`, `.5`, `$__loc__`, `..`, `if`, `reduce`, `try`, `def`, `label`, `foreach`, `"日本語"`, `100000000000000000000`, `$ENV`})
+		lit := kernel.Pick(r, []string{`1`, `"s"`, `"s\(1)"`, `"\(.)"`, `$v`, `"日本\(1)x"`, `@base64`, `@json "x"`, `1.5e3`, `.5`, `$__loc__`, `..`, `if`, `reduce`, `try`, `def`, `label`, `foreach`, `"日本語"`, `100000000000000000000`, `$ENV`, `1.2.3`, `1e5`, `@text`, `$__prog_args`, `"a\tb"`, `"\u00e9x"`, `.5e1`})
 		return Corruption{Kind: "insert", Pos: p, Bytes: pre + lit + " ", Off: len(pre)}
 	}
 	if end && r.Bool(0.3) {
